@@ -82,12 +82,12 @@ theorem disj_add {t : TM} (h : Disj t) {o : Obj} (ho : o ∉ allObjs t) (n : Boo
   · refine ⟨nf, nt, nc, nodup_sinsert o na, ft, fc, ?_, tc, ?_, ?_⟩ <;>
       simp only [addToTreadmill, if_true, mem_sinsert] <;> grind
 
-theorem disj_flip {t : TM} (h : Disj t) (full : Bool) : Disj (flip t full) := by
+theorem disj_flip {t : TM} (h : Disj t) (full : Bool) : Disj (Treadmill.flip t full) := by
   obtain ⟨nf, nt, nc, na, ft, fc, fa, tc, ta, ca⟩ := h
   cases full
-  · refine ⟨nf, nt, na, nc, ft, fa, fc, ta, tc, ?_⟩ <;> simp only [flip, Bool.false_eq_true, if_false]
+  · refine ⟨nf, nt, na, nc, ft, fa, fc, ta, tc, ?_⟩ <;> simp only [Treadmill.flip, Bool.false_eq_true, if_false]
     grind
-  · refine ⟨nt, nf, na, nc, ?_, ta, tc, fa, fc, ?_⟩ <;> simp only [flip, if_true] <;> grind
+  · refine ⟨nt, nf, na, nc, ?_, ta, tc, fa, fc, ?_⟩ <;> simp only [Treadmill.flip, if_true] <;> grind
 
 theorem disj_copyC {t : TM} (h : Disj t) {o : Obj} (ho : o ∈ t.collectNursery) :
     Disj { t with collectNursery := sremove t.collectNursery o, toSpace := sinsert t.toSpace o } := by
@@ -114,14 +114,10 @@ theorem trace_young {r : Run} (hi : Inv r) {f : Bool} (hp : r.sys.ph = .gc f) {o
                                    toSpace := sinsert r.sys.los.tm.toSpace o } }) := by
   have hb := hi.bC o ho
   have hng := hi.gcNg f hp
-  obtain ⟨y1, y2, y3, y4, y5, y6, _⟩ := bits_young _ hi.ms
-  cases f
-  · simp only [youngMark, hp] at hb
-    simp [traceObject, isInNursery, testAndMark, hb, hng, NURSERY_BIT, LOS_BIT_MASK, MARK_BIT,
-      NOT_LOS_BIT_MASK, y1, y2, y5, copy, ho]
-  · simp only [youngMark, hp] at hb
-    simp [traceObject, isInNursery, testAndMark, hb, hng, NURSERY_BIT, LOS_BIT_MASK, MARK_BIT,
-      NOT_LOS_BIT_MASK, y3, y4, y6, copy, ho]
+  have hc : r.sys.los.tm.collectNursery.contains o = true := by simpa using ho
+  cases f <;> simp only [youngMark, hp] at hb <;> rcases ms_cases hi.ms with h0 | h0 <;>
+    simp [traceObject, isInNursery, testAndMark, hb, hng, h0, NURSERY_BIT, LOS_BIT_MASK, MARK_BIT,
+      NOT_LOS_BIT_MASK, copy, ho]
 
 /-- An untraced object of the from-space (full GC): marked, moved by `copy(object, false)`,
 enqueued. -/
@@ -134,9 +130,10 @@ theorem trace_old {r : Run} (hi : Inv r) (hp : r.sys.ph = .gc true) {o : Obj}
                                    toSpace := sinsert r.sys.los.tm.toSpace o } }) := by
   have hb := hi.bF o ho
   have hng := hi.gcNg true hp
-  obtain ⟨o1, o2, o3, o4, o5, o6, _⟩ := bits_old _ hi.ms
-  simp [traceObject, isInNursery, testAndMark, hb, hng, NURSERY_BIT, LOS_BIT_MASK, MARK_BIT,
-    NOT_LOS_BIT_MASK, o2, o5, o6, copy, ho]
+  have hc : r.sys.los.tm.fromSpace.contains o = true := by simpa using ho
+  rcases ms_cases hi.ms with h0 | h0 <;>
+    simp [traceObject, isInNursery, testAndMark, hb, hng, h0, NURSERY_BIT, LOS_BIT_MASK, MARK_BIT,
+      NOT_LOS_BIT_MASK, copy, ho]
 
 /-- An object of the to-space (mature in a nursery GC, already traced, or allocated as live):
 nothing happens, nothing is enqueued. -/
@@ -145,8 +142,7 @@ theorem trace_kept {r : Run} (hi : Inv r) {f : Bool} (hp : r.sys.ph = .gc f) {o 
     traceObject true r.sys.los o = some (false, r.sys.los) := by
   have hb := hi.bT o ho
   have hng := hi.gcNg f hp
-  obtain ⟨o1, o2, o3, o4, _⟩ := bits_old _ hi.ms
-  cases f <;>
-    simp [traceObject, isInNursery, testAndMark, hb, hng, NURSERY_BIT, LOS_BIT_MASK, MARK_BIT, o1, o3, o4]
+  cases f <;> rcases ms_cases hi.ms with h0 | h0 <;>
+    simp [traceObject, isInNursery, testAndMark, hb, hng, h0, NURSERY_BIT, LOS_BIT_MASK, MARK_BIT]
 
 end Mmtk.LOS
